@@ -479,6 +479,9 @@ def derived(run_: Run, name: str, rng) -> list[dict]:
     return out
 
 
+COUNTERS = None   # multiprocessing.Array shared with the pool (set by run_plan before forking)
+
+
 def job(spec: dict) -> dict:
     """Runs in a worker process: one slice of the plan."""
     name, how = spec["name"], spec["how"]
@@ -498,6 +501,12 @@ def job(spec: dict) -> dict:
                 r = holder["r"]
                 res.append(summarise(r, name, how))
                 res += derived(r, name, rng)
+                if spec.get("hard") is not None and COUNTERS is not None:
+                    with COUNTERS.get_lock():       # cap shared by all slices of a complete enumeration
+                        COUNTERS[spec["idx"]] += 1
+                        over = COUNTERS[spec["idx"]] > spec["hard"]
+                    if over:
+                        break
             return {"idx": spec["idx"], "results": res, "pending": ex.pending}
         seen = set()
         for _ in range(spec["limit"]):
@@ -521,6 +530,12 @@ def run_plan(tier, nproc=None):
 
     nproc = nproc or max(2, min(16, (os.cpu_count() or 4)))
     items = plan(tier)
+    # "complete" enumerations get a hard cap too: a code change that removes the mutual exclusion makes the
+    # number of interleavings explode; hitting the cap is then reported as a broken harness obligation
+    global COUNTERS  # pylint: disable=global-statement
+    hard = 8000 if tier == "quick" else 60000
+    wanted_complete = {idx for idx, it in enumerate(items) if it[2] is None}
+    COUNTERS = mp.Array("i", len(items))
     results: dict[int, list] = {i: [] for i in range(len(items))}
     timeouts = []
     specs = []
@@ -539,19 +554,20 @@ def run_plan(tier, nproc=None):
                 roots = pend[j::nch]
                 lim = None if left is None else -(-left // nch)
                 if roots and (lim is None or lim > 0):
-                    specs.append({"idx": idx, "name": name, "how": how, "tag": f"{name}:{how}:{j}", "roots": roots, "limit": lim})
+                    specs.append({"idx": idx, "name": name, "how": how, "tag": f"{name}:{how}:{j}", "roots": roots,
+                                  "limit": lim, "hard": hard if amount is None else None})
         else:
             per = 200
             for j in range(0, amount, per):
                 specs.append({"idx": idx, "name": name, "how": how, "tag": f"{name}:{how}:{j}", "limit": min(per, amount - j)})
-    complete = {idx: items[idx][2] is None for idx in range(len(items)) if items[idx][1] in GLUE}
+    complete = {idx: idx in wanted_complete for idx in range(len(items)) if items[idx][1] in GLUE}
     with mp.get_context("fork").Pool(nproc) as pool:
         for r in pool.imap_unordered(job, specs, chunksize=1):
             results[r["idx"]] += r["results"]
             if "timeout" in r:
                 timeouts.append(r["timeout"])
-            if r["pending"]:
-                complete[r["idx"]] = False
+            if r["pending"] and complete.get(r["idx"]):
+                complete[r["idx"]] = None     # wanted complete, cap hit
     for idx in results:
         uniq = {}
         for d in results[idx]:
@@ -818,7 +834,11 @@ def run(out, tier, scratch):
             if how in GLUE:
                 n = sum(1 for d in results[idx] if d["how"] == how)
                 out.notes.append(f"{name}: '{how}' enumeration {'COMPLETE' if complete[idx] else 'capped'}: {n} schedules")
-        out.exhaustive = all(complete[idx] for idx in complete if items[idx][2] is None)
+        out.exhaustive = all(v is not None for v in complete.values())
+        capped = [f"{items[idx][0]}/{items[idx][1]}" for idx, v in complete.items() if v is None]
+        if capped:
+            harness_ok, harness_detail = False, ("enumerations that are complete on the unchanged code did not finish within "
+                                                 f"the hard cap: {capped} (the code admits far more interleavings than the model)")
         if timeouts:
             harness_ok, harness_detail = False, "watchdog expired: " + " | ".join(timeouts[:3])
     except HarnessTimeout as e:
